@@ -39,8 +39,8 @@ class C07(CleanBase):
             ops = setup + cfg + run + extra + [G.op_setenv(ci, upd), {"op": "dumpfs"}, {"op": "clean", "sort": sort, "count": info["count"], "colour": colour}, {"op": "dumpfs"}]
             cases.append({"ci": False, "updvar": "unset", "colour": False, "ops": ops,
                           "meta": {"mode": "ci=%s upd=%s sort=%s" % (ci, upd, sort), "nontest": nontest}})
-        # `%` in names (outside the modelled Sprintf, finding K8): whatever file the standalone calls really
-        # wrote must survive Clean and must not be listed
+        # `%` in names (a format verb to the standalone path before fix F8; the model is exact for them since): whatever file the
+        # standalone calls wrote must survive Clean and must not be listed
         for i in range(n // 8):
             r = rng.fork()
             t = r.choice([b"TestPct/100%", b"TestPct/%d_items", b"TestPct/a%sb", b"TestP%%"])
@@ -48,7 +48,7 @@ class C07(CleanBase):
             calls = [G.op_match_doc(r.choice(["stand", "standjson"]), 1, t, b'{"a":1}') for _ in range(r.range(1, 3))]
             ci, upd = r.choice(G.ENVS)
             ops = [cfg] + calls + [G.op_end(t), G.op_setenv(ci, upd), {"op": "dumpfs"}, {"op": "clean", "sort": r.chance(1, 2), "count": 1}, {"op": "dumpfs"}]
-            cases.append({"ci": False, "updvar": "unset", "colour": False, "ops": ops, "meta": {"mode": "pct", "oracle_only": True}})
+            cases.append({"ci": False, "updvar": "unset", "colour": False, "ops": ops, "meta": {"mode": "pct"}})
         return cases
 
     def oracle(self, case, ops, results):
